@@ -77,5 +77,9 @@ Bound(fam, n, k) ==
     [] fam = "diamond_plan"       -> 28 * n + 20
     [] fam = "chain_fingerprint"   -> 4 * n + 8              \* selection sets walked by the plan-cache fingerprint
     [] fam = "diamond_fingerprint" -> 12 * n + 16
+    \* one response key selected twice per level, both occurrences spreading the same next fragment: the
+    \* occurrences are merged, so every level is planned / compared once, not once per path (2^n paths)
+    [] fam = "twinchain_validate" -> 40 * n + 40
+    [] fam = "twinchain_planexec" -> 20 * n + 20
     [] OTHER -> 0
 =============================================================================
